@@ -155,10 +155,11 @@ def obligations(tier, seed):
             viol.append(z3.And(p.cond(), z3.Not(z3.And(l == 1, mx == lim))))
             reach.append(p.cond())
     bad = bad or [p for p in ps if p.kind == "panic"]
-    if bad or not reach:
+    reach_l = R.live_reach(viol, reach, bad)
+    if bad or not reach_l[0]:
         out.append(R.Result(engine="mirsym", name="kernel:BatchResponseBuilder::new_with_limit", kind="kernel", status="unsupported", detail=(bad[0].detail if bad else "no return path"), bodies=[b.name]))
     else:
-        out.append(R.decide("kernel:BatchResponseBuilder::new_with_limit", "kernel", z3.Or(*viol), z3.Or(*reach), bodies=[b.name],
+        out.append(R.decide("kernel:BatchResponseBuilder::new_with_limit", "kernel", z3.Or(*viol), z3.Or(*reach_l[0]), bodies=[b.name],
                             desc="a new builder holds exactly '[' (length 1) and the given limit", bounds="all usize limits",
                             extra={"models": _models_used(ctx)}))
 
